@@ -8,10 +8,12 @@
 package vf
 
 import (
+	"context"
 	"encoding/json"
 	"fmt"
 	"os"
 	"strconv"
+	"time"
 )
 
 type input struct {
@@ -184,4 +186,50 @@ func Try(f func()) (panicked bool, msg string) {
 	}()
 	f()
 	return false, ""
+}
+
+// ---------------------------------------------------------------------
+// Cancellable contexts.  Natively these are the standard library's; under the
+// engine context.WithCancel/WithTimeout are routed to the small model below
+// (a timeout "fires" only when nothing else can make progress).
+
+type Ctx struct {
+	Parent    context.Context
+	Cancelled bool
+	ch        chan struct{}
+}
+
+func (c *Ctx) Deadline() (time.Time, bool) { return time.Time{}, false }
+func (c *Ctx) Done() <-chan struct{}       { return c.ch }
+func (c *Ctx) Err() error {
+	if c.Cancelled {
+		return context.Canceled
+	}
+	if c.Parent != nil {
+		return c.Parent.Err()
+	}
+	return nil
+}
+func (c *Ctx) Value(key any) any {
+	if c.Parent != nil {
+		return c.Parent.Value(key)
+	}
+	return nil
+}
+
+// ModelWithCancel is what the engine substitutes for context.WithCancel / WithTimeout.
+func ModelWithCancel(parent context.Context) (context.Context, context.CancelFunc) {
+	c := &Ctx{Parent: parent, ch: make(chan struct{})}
+	return c, func() {
+		if !c.Cancelled {
+			c.Cancelled = true
+			close(c.ch)
+		}
+	}
+}
+
+// WithCancel is context.WithCancel (for harnesses that model a request context
+// which the transport cancels when the call returns).
+func WithCancel(parent context.Context) (context.Context, context.CancelFunc) {
+	return context.WithCancel(parent)
 }
